@@ -10,18 +10,22 @@ from ..segeval import Repeat, Seg, SegEval, boolean, same, show
 
 EXPLANATION = (
     "Static rules over the segments() decompositions and their plumbing (no execution). R06.1 decomposition tables: the "
-    "tuple of constructor calls in Rect.segments (plain and rounded), SimpleLine.segments and _Polyshape.segments is compared "
-    "with SVG 2 sections 10.2-10.7: segment kinds in order, every coordinate as an exact linear form in x, y, width, height, "
-    "rx, ry, each start equal to the previous end, the closing segment returning to the first point, corner arcs carrying "
-    "rx/ry, Close appended iff the class is Polygon; the round shapes start at parameter 0, take four quarter-turn arcs with "
-    "the carried parameter and close. R06.2 corner decision table: _validate_rect over the four (rx given?, ry given?) cells "
-    "(auto-completion copies the given one; rx resolves against width, ry against height), clamp to half the side, zero in "
-    "either zeroes both. R06.3: every decomposition tests is_degenerate() before building and returns an empty sequence; the "
-    "is_degenerate predicates are the zero-dimension/no-point tests. R06.4 save/restore: a decomposition that overwrites "
-    "self.apply restores it on every exit. R06.5: transformed decompositions are obtained by multiplication (shared with "
-    "C02.5). R06.6 plumbing: Shape.d, Path(shape) and Shape.__eq__ all go through segments(). Not decided: curved edges lying "
-    "on the specified ellipse for all parameters (the axis-aligned Arc(rx=, ry=) constructor picks its centre by "
-    "orientation tests); bbox/length equality."
+    "tuple of constructor calls in Rect.segments (plain and rounded), SimpleLine.segments and _Polyshape.segments is "
+    "compared with SVG 2 sections 10.2-10.7: segment kinds in order, every coordinate as an exact linear form in x, y, "
+    "width, height, rx, ry, each start equal to the previous end, the closing segment returning to the first point, corner "
+    "arcs carrying rx/ry, Close appended iff the class is Polygon; the round shapes start at parameter 0, take four "
+    "quarter-turn arcs with the carried parameter and close. R06.2 corner decision table: _validate_rect over the four (rx "
+    "given?, ry given?) cells (auto-completion copies the given one; rx resolves against width, ry against height), clamp "
+    "to half the side, zero in either zeroes both. R06.3 (scenario: a zero dimension; for the round shapes each radius on "
+    "its own): every decomposition returns an empty sequence, whether it asks is_degenerate() or spells the radius test "
+    "out; the is_degenerate predicates are the zero-dimension/no-point tests, joined by or. R06.4 save/restore: every field"
+    " of the shape that a decomposition overwrites (self.apply) is saved first and restored on every exit, by statement "
+    "order. R06.5: transformed decompositions are obtained by multiplication (shared with C02.5); in the scenarios "
+    "(transformed?, identity transform?) every point operand of the polyshape - move, linetos and the polygon's close - "
+    "reads the mapped point list exactly when a non-identity transformed form is asked for. R06.6 plumbing: Shape.d, "
+    "Path(shape) and Shape.__eq__ all go through segments(). Not decided: curved edges lying on the specified ellipse for "
+    "all parameters (the axis-aligned Arc(rx=, ry=) constructor picks its centre by orientation tests); bbox/length "
+    "equality."
 )
 TECHNIQUE = (
     "static analysis (no execution): segment-sequence extraction from segments() (value numbering, constant loops unrolled, index loops summarised by induction) compared with the SVG 2 chapter 10 equivalent paths; corner decision table by dispatch extraction; save/restore path check"
@@ -72,6 +76,41 @@ def common_leaf(node, degenerate=False, transformed=False, identity=True):
     if isinstance(node, ast.Attribute) and node.attr == "_strict":
         return True
     return None
+
+
+DIMENSIONS = {"self.implicit_rx", "self.implicit_ry", "self.rx", "self.ry", "self.implicit_r"}
+
+
+def shape_leaf(ctx, qual, degenerate=False, transformed=False, identity=True, only=None):
+    """common_leaf, plus the spelled-out form of the degenerate test: `<radius> == 0` (directly or through a local bound once to
+    the radius) is true exactly in the degenerate scenario."""
+    from ..flow import bindings
+
+    fn = ctx.fn(qual, "R06.1")
+    local = {}
+    for tg, v, n in bindings(fn):
+        if isinstance(tg, ast.Name):
+            local.setdefault(tg.id, []).append(v)
+
+    def dim(n):
+        if isinstance(n, ast.Name) and len(local.get(n.id, [])) == 1 and local[n.id][0] is not None:
+            n = local[n.id][0]
+        ch = attr_chain(n)
+        return ".".join(ch) if ch and ".".join(ch) in DIMENSIONS else None
+
+    def leaf(node):
+        v = common_leaf(node, degenerate, transformed, identity)
+        if v is not None:
+            return v
+        if isinstance(node, ast.Compare) and len(node.ops) == 1 and isinstance(node.ops[0], (ast.Eq, ast.NotEq)):
+            l, r = node.left, node.comparators[0]
+            for a, b in ((l, r), (r, l)):
+                if isinstance(b, ast.Constant) and b.value == 0 and not isinstance(b.value, bool) and dim(a):
+                    zero = degenerate and (only is None or dim(a).endswith(only))
+                    return zero if isinstance(node.ops[0], ast.Eq) else not zero
+        return None
+
+    return leaf
 
 
 def rect_leaf(holder, zero, degenerate=False, transformed=False, identity=True):
@@ -199,7 +238,7 @@ def line_and_poly(ctx):
 
 
 def round_shape(ctx):
-    fn, ev, out = extract(ctx, "_RoundShape.segments", "R06.1", common_leaf, point_calls=("point_at_t",))
+    fn, ev, out = extract(ctx, "_RoundShape.segments", "R06.1", shape_leaf(ctx, "_RoundShape.segments"), point_calls=("point_at_t",))
     seq = result_sequence(ev, out, "R06.1", "_RoundShape.segments")
     q = const(2) * atom("pi") / const(4)
     PT = lambda t: ("call", "point_at_t", t)
@@ -334,15 +373,14 @@ def zero_tests(ctx, fn, expr):
 
 
 def degenerate(ctx):
-    for cname, kw in (("Rect", {}), ("_RoundShape", {"point_calls": ("point_at_t",)}), ("_Polyshape", {"point_lists": ("self.points",)})):
+    for cname, kw, only in (("Rect", {}, None), ("_RoundShape", {"point_calls": ("point_at_t",)}, "rx"), ("_RoundShape", {"point_calls": ("point_at_t",)}, "ry"),
+                            ("_Polyshape", {"point_lists": ("self.points",)}, None)):
         qual = "%s.segments" % cname
-        leaf = rect_leaf({}, False, degenerate=True) if cname == "Rect" else (lambda n: common_leaf(n, degenerate=True))
+        leaf = rect_leaf({}, False, degenerate=True) if cname == "Rect" else shape_leaf(ctx, qual, degenerate=True, only=only)
         fn, ev, out = extract(ctx, qual, "R06.3", leaf, **kw)
         ok = out[0] == "return" and out[1] is not None and ev.seq_value(out[1]) == []
-        ctx.ob("R06.3", "%s.segments[degenerate -> empty]" % cname, ok, ast.unparse(out[1])[:60] if out[1] is not None else out[0], fn.lineno,
+        ctx.ob("R06.3", "%s.segments[degenerate%s -> empty]" % (cname, ": %s zero" % only if only else ""), ok, ast.unparse(out[1])[:60] if out[1] is not None else out[0], fn.lineno,
                "a shape with a zero dimension or no points produces no segments")
-        ctx.ob("R06.3", "%s.segments[consults is_degenerate]" % cname, any(isinstance(c, ast.Call) and isinstance(c.func, ast.Attribute) and c.func.attr == "is_degenerate" for c in ast.walk(fn)), "", fn.lineno,
-               "the decomposition asks the shape whether it renders at all")
     for cname, want, msg in (("Rect", {"self.width", "self.height"}, "a rect is degenerate when either side is zero"),
                              ("_RoundShape", {"self.implicit_rx", "self.implicit_ry"}, "a circle/ellipse is degenerate when either radius is zero"),
                              ("_Polyshape", {"self.points"}, "a polyshape without points is degenerate")):
@@ -354,36 +392,47 @@ def degenerate(ctx):
         ctx.ob("R06.3", "%s.is_degenerate" % cname, (want <= got or alt <= got) and not conj, "zero tests (disjunctive): %s" % sorted(got), r.lineno, msg)
 
 
-def save_restore(ctx):
+def save_restore(ctx, rule="R06.4"):
+    """segments() may flip a field of the shape while it builds the decomposition (self.apply selects the transformed form);
+    every field it writes is saved first and restored on every exit."""
     n = 0
     for cname in ("Rect", "_RoundShape", "SimpleLine", "_Polyshape", "Path"):
-        fn = ctx.fn("%s.segments" % cname, "R06.4")
-        saves = [s for s in fn.body if isinstance(s, ast.Assign) and ast.unparse(s.value) == "self.apply" and isinstance(s.targets[0], ast.Name)]
-        writes = [s for s in stmts_in(fn.body) if isinstance(s, ast.Assign) and ast.unparse(s.targets[0]) == "self.apply"]
-        if not writes:
-            continue
-        n += 1
-        ctx.need(len(saves) == 1, "R06.4", "%s.segments overwrites self.apply without saving it" % cname)
-        saved = saves[0].targets[0].id
-        first_write = min(w.lineno for w in writes if ast.unparse(w.value) != saved)
-        # every return after the first overwrite must be preceded (in its own block or earlier at top level) by the restore
-        bad = []
-        for r in ast.walk(fn):
-            if isinstance(r, ast.Return) and r.lineno > first_write:
-                blk = None
-                for node in ast.walk(fn):
-                    for field in ("body", "orelse"):
-                        b = getattr(node, field, None)
-                        if isinstance(b, list) and r in b:
-                            blk = b
-                restored = any(isinstance(s, ast.Assign) and ast.unparse(s.targets[0]) == "self.apply" and ast.unparse(s.value) == saved and s.lineno < r.lineno for s in blk) \
-                    or any(isinstance(s, ast.Assign) and ast.unparse(s.targets[0]) == "self.apply" and ast.unparse(s.value) == saved and first_write < s.lineno < r.lineno for s in fn.body)
-                in_finally = any(isinstance(t, ast.Try) and any(isinstance(s, ast.Assign) and ast.unparse(s.targets[0]) == "self.apply" and ast.unparse(s.value) == saved for s in t.finalbody) for t in ast.walk(fn))
-                if not (restored or in_finally):
-                    bad.append("return line %d" % r.lineno)
-        ctx.ob("R06.4", "%s.segments[apply restored on every exit]" % cname, not bad, "; ".join(bad), fn.lineno,
-               "the decomposition leaves self.apply changed on this exit: the shape silently stops applying its transform (or starts to)")
-    ctx.need(n >= 1, "R06.4", "no decomposition overwrites self.apply (rule has nothing to check)")
+        fn = ctx.fn("%s.segments" % cname, rule)
+        order = {id(s): k for k, s in enumerate(stmts_in(fn.body))}
+        fields = sorted({ast.unparse(t) for s in stmts_in(fn.body) if isinstance(s, (ast.Assign, ast.AugAssign)) for t in (s.targets if isinstance(s, ast.Assign) else [s.target])
+                         if isinstance(t, ast.Attribute) and isinstance(t.value, ast.Name) and t.value.id == "self"})
+        for field in fields:
+            n += 1
+            cons = "%s.segments[%s restored on every exit]" % (cname, field.replace("self.", ""))
+            saves = [s for s in fn.body if isinstance(s, ast.Assign) and ast.unparse(s.value) == field and isinstance(s.targets[0], ast.Name)]
+            writes = [s for s in stmts_in(fn.body) if isinstance(s, (ast.Assign, ast.AugAssign)) and any(ast.unparse(t) == field for t in (s.targets if isinstance(s, ast.Assign) else [s.target]))]
+            if len(saves) != 1:
+                ctx.ob(rule, cons, False, "overwritten without being saved first", writes[0].lineno, "the decomposition changes a field of the shape it reads")
+                continue
+            saved = saves[0].targets[0].id
+            is_restore = lambda s: isinstance(s, ast.Assign) and ast.unparse(s.targets[0]) == field and ast.unparse(s.value) == saved
+            changing = [w for w in writes if not is_restore(w)]
+            if not changing:
+                continue
+            first_write = min(order[id(w)] for w in changing)
+            ctx.need(order[id(saves[0])] < first_write, rule, "%s.segments: %s saved after it is overwritten" % (cname, field))
+            in_finally = any(isinstance(t, ast.Try) and any(is_restore(s) for s in t.finalbody) for t in ast.walk(fn))
+            bad = []
+            for r in stmts_in(fn.body):
+                if isinstance(r, ast.Return) and order[id(r)] > first_write:
+                    blk = None
+                    for node in ast.walk(fn):
+                        for fld in ("body", "orelse"):
+                            b = getattr(node, fld, None)
+                            if isinstance(b, list) and r in b:
+                                blk = b
+                    restored = any(is_restore(s) and order[id(s)] < order[id(r)] for s in blk) \
+                        or any(is_restore(s) and first_write < order[id(s)] < order[id(r)] for s in fn.body)
+                    if not (restored or in_finally):
+                        bad.append("return line %d" % r.lineno)
+            ctx.ob(rule, cons, not bad, "; ".join(bad), fn.lineno,
+                   "the decomposition leaves %s changed on this exit: the shape silently stops applying its transform (or starts to)" % field)
+    ctx.need(n >= 1, rule, "no decomposition overwrites a field of its shape (rule has nothing to check)")
 
 
 def plumbing(ctx):
@@ -466,12 +515,26 @@ def transformed_selection(ctx):
         want_mapped = tr and not ident
         ctx.ob("R06.5", "Rect.segments[%s]" % tag, mapped if want_mapped else plain, "image of the decomposition" if mapped else "plain decomposition" if plain else "neither", fn.lineno,
                "the matrix is applied exactly when a transformed decomposition is requested (and the transform is not the identity)")
+        # a polygon (the isinstance test answers yes): move, linetos and the close all read one point list
         fn, ev, out = extract(ctx, "_Polyshape.segments", "R06.5", lambda n, tr=tr, ident=ident: common_leaf(n, transformed=tr, identity=ident)
-                              if not (isinstance(n, ast.Call) and call_name(n) == "isinstance") else False, point_lists=("self.points",))
+                              if not (isinstance(n, ast.Call) and call_name(n) == "isinstance") else True, point_lists=("self.points",))
         seq = result_sequence(ev, out, "R06.5", "_Polyshape.segments[%s]" % tag)
-        first = seq[0].args[1] if seq and isinstance(seq[0], Seg) and len(seq[0].args) > 1 else None
-        base = first[1] if isinstance(first, tuple) and len(first) == 3 else None
-        is_img = isinstance(base, str) and base.startswith("map(") and "self.transform" in base and base.endswith("self.points)")
-        is_plain = base == "self.points"
-        ctx.ob("R06.5", "_Polyshape.segments[%s]" % tag, is_img if want_mapped else is_plain, str(base), fn.lineno,
-               "the matrix is applied exactly when a transformed decomposition is requested (and the transform is not the identity)", sample=False)
+        bases = []
+
+        def collect(items):
+            for x in items:
+                if isinstance(x, Repeat):
+                    collect(x.items)
+                elif isinstance(x, Seg):
+                    for a in x.args:
+                        if isinstance(a, tuple) and len(a) == 3 and a[0] == "elem":
+                            bases.append((a[1], x.kind, x.node.lineno))
+                        elif a is not None:
+                            bases.append((show(a), x.kind, x.node.lineno))
+
+        collect(seq)
+        is_img = lambda b: isinstance(b, str) and b.startswith("map(") and "self.transform" in b and b.endswith("self.points)")
+        okb = bool(bases) and all((is_img(b) if want_mapped else b == "self.points") for b, _, _ in bases)
+        wrong = sorted({"%s reads %s (line %d)" % (k, b, ln) for b, k, ln in bases if not (is_img(b) if want_mapped else b == "self.points")})
+        ctx.ob("R06.5", "_Polyshape.segments[%s]" % tag, okb, "; ".join(wrong) or "all %d point operands read %s" % (len(bases), bases[0][0] if bases else "?"), fn.lineno,
+               "the matrix is applied exactly when a transformed decomposition is requested (and the transform is not the identity), and to every point of the decomposition", sample=False)
